@@ -48,7 +48,7 @@ func (c19) Components() map[string][]string {
 	}
 }
 func (c19) ProbeNames() []string {
-	return []string{"wl-ext4", "wl-fat", "wl-squashfs", "wl-isorr", "special-bits", "uid-over-16bit", "time-pre-1970", "time-post-2038", "long-symlink", "fat-flag-change", "fat-time-change", "reopen"}
+	return []string{"wl-ext4", "wl-fat", "wl-squashfs", "wl-isorr", "special-bits", "uid-over-16bit", "time-pre-1970", "time-post-2038", "long-symlink", "id-table-over-one-block", "fat-flag-change", "fat-time-change", "reopen"}
 }
 func (c19) Budget(tier string) (int, int, int) {
 	if tier == "thorough" {
@@ -119,6 +119,10 @@ func (c19) Gen(r *core.Rng, tier string, idx int) *core.Trace {
 		t.Cfg["sqcomp"] = int64(r.PickW(32, 2, 32, 32)) // xz is two orders of magnitude slower and irrelevant to metadata: rare
 		// the process's local time zone, in quarter hours east of UTC (the workspace's times are read in it)
 		t.Cfg["tz"] = core.PickOf[int64](r, 0, 0, -20, 22, -38, 52, -48, 56, 1, -1, r.Range(-48, 56))
+		if wl == "squashfs" && r.Chance(4) {
+			// more distinct owners and groups than one metadata block of the id table holds (2048)
+			t.Cfg["manyids"] = 1
+		}
 	}
 	t.CfgS["wl"] = wl
 	return t
@@ -432,6 +436,15 @@ func execWorkspaceMeta(t *core.Trace) *core.Result {
 		e.uid, e.gid = uids[r.Intn(len(uids))], uids[r.Intn(len(uids))]
 		e.mtime = time.Unix(times[r.Intn(len(times))], 0)
 		ents = append(ents, e)
+	}
+	if t.I("manyids") == 1 && wl == "squashfs" {
+		res.Probe("id-table-over-one-block")
+		for k := 0; k < 1150; k++ {
+			if k%100 == 0 {
+				ents = append(ents, wsMeta{path: fmt.Sprintf("ids%02d", k/100), dir: true, mode: 0o755, mtime: time.Unix(1700000000, 0)})
+			}
+			ents = append(ents, wsMeta{path: fmt.Sprintf("ids%02d/o%04d", k/100, k), data: []byte{byte(k)}, mode: 0o644, uid: uint32(100000 + k), gid: uint32(300000 + k), mtime: time.Unix(1700000000+int64(k), 0)})
+		}
 	}
 	linkLens := []int{1, 7, 59, 60, 61, 200, 1000, 4095}
 	for i := 0; i < 1+r.Intn(3); i++ {
